@@ -333,7 +333,7 @@ theorem glbLoop_invariant (solve : State α → Option (Answer α)) (mustRefine 
       · rename_i r' hr'
         simp only [Option.some.injEq] at h; subst h
         exact hextract s ans _ hs hr'
-  exact loopG_invariant _ _ _ maxIter P hrefine hopt fuel n s r hs h
+  exact loopG_invariant _ _ _ maxIter P (fun s r hs hr => by cases hr; exact hrefine s hs) hopt fuel n s r hs h
 
 /-- **The loop optimises before it may stop.**  With at least one pass allowed (`max_iter` is `None` or `≥ 1`),
     whatever `glbfloor` returns is the output of `extract_solution` on the cells of some offered allocation — never
@@ -351,7 +351,7 @@ theorem glbfloor_returns_extracted (solve : State α → Option (Answer α)) (mu
     | some k =>
       have : k ≠ 0 := fun hk => hlim (by rw [hk])
       simp only [withinLimit, decide_eq_true_eq]; omega
-  obtain ⟨s, hs⟩ := loopG_first _ _ _ maxIter fuel init r hl h
+  obtain ⟨s, _, hs⟩ := loopG_first _ _ _ maxIter fuel init r hl h
   unfold optimizeStep at hs
   cases hsol : solve s with
   | none => simp only [hsol] at hs; exact absurd hs (by simp)
